@@ -37,10 +37,32 @@ def declared_names(sub) -> set:
     return _DECLARED[k]
 
 
+_NEAR = {}
+
+
+def near_names(sub) -> list:
+    """undeclared names that are *near* declared ones (substrings, case variants, affixed forms): the names most
+    likely to be confused with a discriminator key by hand-written code."""
+    k = id(sub)
+    if k not in _NEAR:
+        names = declared_names(sub)
+        out = {""}
+        for n in sorted(names):
+            out.update([n.upper(), n.lower(), n.capitalize(), n + "s", n + "_", "_" + n, n + " ", " " + n, n + "Id", "x" + n, n[:-1], n[1:]])
+            if len(n) <= 4:
+                for i in range(len(n) + 1):
+                    for j in range(i, len(n) + 1):
+                        out.add(n[i:j])
+        _NEAR[k] = sorted(x for x in out if x not in names)
+    return _NEAR[k]
+
+
 def extra(sub, root):
     names = declared_names(sub)
     fresh = st.one_of(
         st.sampled_from(["x", "_", "$schema", "newField", "Kind", "ID", "__proto__", "experimentalFoo", " ", "naïve", "0"]),
+        st.sampled_from(near_names(sub)),
+        st.text(alphabet="abcdefghijklmnopqrstuvwxyzIDKR_", min_size=0, max_size=3),
         st.text(min_size=1, max_size=8),
     ).filter(lambda s: s not in names)
     return st.lists(st.tuples(st.integers(0, 10**6), fresh, tvgen.json_any), min_size=1, max_size=3)
